@@ -63,7 +63,7 @@ impl ReplHighlighter {
             Some((
                 _,
                 &Token {
-                    token_type: TokenType::LeftParen | TokenType::RightParen,
+                    token_type: TokenType::LeftParen | TokenType::RightParen | TokenType::HashParen,
                     ..
                 },
             ))
@@ -75,28 +75,32 @@ fn find_matching_bracket<'a>(
     tokens: &'a [Token],
     bracket: (usize, &'a Token),
 ) -> Option<&'a Token> {
-    let (have, want, mut iter): (TokenType, TokenType, Box<dyn Iterator<Item = &Token>>) =
+    // A vector opener `#(` opens a bracket just like `(`
+    let is_open = |t: &TokenType| matches!(t, TokenType::LeftParen | TokenType::HashParen);
+    let is_close = |t: &TokenType| matches!(t, TokenType::RightParen);
+
+    let (forward, mut iter): (bool, Box<dyn Iterator<Item = &Token>>) =
         match bracket.1.token_type {
-            TokenType::RightParen => (
-                TokenType::RightParen,
-                TokenType::LeftParen,
-                Box::new(tokens[..(bracket.0)].iter().rev()),
-            ),
-            TokenType::LeftParen => (
-                TokenType::LeftParen,
-                TokenType::RightParen,
-                Box::new(tokens[(bracket.0 + 1)..].iter()),
-            ),
+            TokenType::RightParen => (false, Box::new(tokens[..(bracket.0)].iter().rev())),
+            TokenType::LeftParen | TokenType::HashParen => {
+                (true, Box::new(tokens[(bracket.0 + 1)..].iter()))
+            }
             _ => return None,
         };
 
     let mut stack = 0;
     for it in &mut *iter {
-        if it.token_type == have {
+        let (have, want) = if forward {
+            (is_open(&it.token_type), is_close(&it.token_type))
+        } else {
+            (is_close(&it.token_type), is_open(&it.token_type))
+        };
+
+        if have {
             stack += 1;
         }
 
-        if it.token_type == want {
+        if want {
             if stack == 0 {
                 return Some(it);
             } else {
